@@ -20,7 +20,7 @@ func init() {
 	Register("C35", &Info{
 		Run:   runC35,
 		Quick: 2500, Thor: 250000,
-		Rule: "a world = one server Config with a history of ticket operations: a real TLS 1.2 or 1.3 connection supplies genuine SessionState values (captured through Config.WrapSession), variants are derived by editing Extra/EarlyData; operations drawn per world: EncryptTicket/DecryptTicket round trip, single-bit flips at every region (IV, ciphertext, MAC), truncation/extension, explicit key sets and rotations through SetSessionTicketKeys (new key in front: old tickets still open; old key removed: no state), automatic key rotation under server clock jumps (1 h .. 30 d against the 7-day key lifetime), opening tickets with an independent AES-CTR + HMAC-SHA256 sealer keyed by TicketKeyFromBytes and sealing tickets independently for DecryptTicket, and finally a resumption through a forged ClientSessionState (drawn master secret patched into the state) that must resume with the supplied version/suite and equal exporters on both sides; non-trivial = a ticket was decrypted or rejected after a mutation/rotation; distinct = (operation sequence, key history, clock jumps)",
+		Rule: "a world = one server Config with a history of ticket operations: a real TLS 1.2 or 1.3 connection supplies genuine SessionState values (captured through Config.WrapSession), variants are derived by editing Extra/EarlyData; operations drawn per world: EncryptTicket/DecryptTicket round trip, single-bit flips at every region (IV, ciphertext, MAC), truncation/extension, explicit key sets and rotations through SetSessionTicketKeys (new key in front: old tickets still open; old key removed: no state), automatic key rotation under server clock jumps (1 h .. 30 d against the 7-day key lifetime), opening tickets with an Config.Clone() snapshots that must keep the key set they were taken with, independent AES-CTR + HMAC-SHA256 sealer keyed by TicketKeyFromBytes and sealing tickets independently for DecryptTicket, and finally a resumption through a forged ClientSessionState (drawn master secret patched into the state) that must resume with the supplied version/suite and equal exporters on both sides; one world in six: a Config with the legacy SessionTicketKey field set, 1-3 tasks calling EncryptTicket concurrently with one SetSessionTicketKeys call under a scheduler that switches at every lock operation - afterwards the keys in force must be the installed ones; non-trivial = a ticket was decrypted or rejected after a mutation/rotation; distinct = (operation sequence, key history, clock jumps)",
 		Assumptions: []string{"the independent sealer follows the documented ticket format (16-byte IV, AES-128-CTR, HMAC-SHA256 over IV and ciphertext) with keys from TicketKeyFromBytes",
 			"automatic rotation: no claim between 6 and 8 days"},
 		Real: []string{"utls server Config ticket code, client session injection (MakeClientSessionState, SetSessionState) from /repo"},
@@ -54,7 +54,81 @@ func indepSeal(k tls.TicketKey, iv [16]byte, state []byte) []byte {
 	return h.Sum(out)
 }
 
+// runC35Legacy: a Config with the legacy SessionTicketKey field set and not used yet; tasks that need
+// the ticket keys (EncryptTicket) run concurrently with one SetSessionTicketKeys call under a scheduler
+// that switches at every lock operation; once everything has returned, the keys in force must be the
+// ones SetSessionTicketKeys installed.
+func runC35Legacy(c *Ctx) {
+	ch := c.Ch
+	var legacy, k [32]byte
+	ch.Bytes(legacy[:], "legacy-key")
+	ch.Bytes(k[:], "new-key")
+	nenc := ch.Range(1, 3, "encrypt-tasks")
+	w := c.NewWorld(simrt.Config{LockYield: true, UnlockYield: ch.Bool(60, "unlockyield"), PreemptPct: 20 + 20*ch.Pick(4, "preempt")})
+	cfg := &tls.Config{Certificates: []tls.Certificate{Cert("ecdsa").U}, SessionTicketKey: legacy}
+	// a genuine state to seal
+	donor := &tls.Config{Certificates: []tls.Certificate{Cert("ecdsa").U}, MaxVersion: tls.VersionTLS12}
+	var states []*tls.SessionState
+	var css []tls.ConnectionState
+	donor.WrapSession = func(cs tls.ConnectionState, ss *tls.SessionState) ([]byte, error) {
+		states = append(states, ss)
+		css = append(css, cs)
+		return donor.EncryptTicket(cs, ss)
+	}
+	o := RunConn(c, w, &ConnSpec{Name: "seed", ID: tls.HelloGolang, CCfg: &tls.Config{ServerName: "example.test", RootCAs: Roots(), ClientSessionCache: tls.NewLRUClientSessionCache(2), MaxVersion: tls.VersionTLS12}, Peer: PeerUTLS, SCfg: donor, Payload: [][]byte{[]byte("x")}})
+	if !o.CDone || len(states) == 0 {
+		c.Finish(w, true)
+		c.R.Harness = "seed connection produced no session state: " + o.Describe()
+		return
+	}
+	st, cs0 := states[0], css[0]
+	stBytes, _ := st.Bytes()
+	var encErrs []error
+	for i := 0; i < nenc; i++ {
+		w.Go(fmt.Sprintf("enc%d", i), func() {
+			_, err := cfg.EncryptTicket(cs0, st)
+			encErrs = append(encErrs, err)
+		})
+	}
+	setDone := false
+	w.Go("set", func() {
+		simrt.WaitSteps(ch.Range(0, 12, "set-at"))
+		cfg.SetSessionTicketKeys([][32]byte{k})
+		setDone = true
+	})
+	w.Run()
+	w.Join()
+	c.Finish(w, true)
+	c.R.Class = fmt.Sprintf("legacy-key concurrent enc=%d", nenc)
+	c.R.NonTrivial = true
+	c.Fault("concurrent-set-keys", 1)
+	if c.R.Violation != nil {
+		return
+	}
+	if !setDone {
+		c.R.Harness = "SetSessionTicketKeys did not run"
+		return
+	}
+	var iv [16]byte
+	ch.Bytes(iv[:], "iv")
+	t := indepSeal(tls.TicketKeyFromBytes(k), iv, stBytes)
+	d, _ := cfg.DecryptTicket(t, cs0)
+	if d == nil {
+		c.Violate("set-keys-lost-under-concurrency", "%s: after SetSessionTicketKeys([K]) and all concurrent EncryptTicket calls returned, a ticket sealed under K is not accepted (the keys in force are not the configured ones)", c.R.Class)
+		return
+	}
+	if t2, err := cfg.EncryptTicket(cs0, st); err == nil {
+		if pt := indepOpen(tls.TicketKeyFromBytes(k), t2); !bytes.Equal(pt, stBytes) {
+			c.Violate("set-keys-lost-under-concurrency", "%s: tickets are sealed with a key other than the configured one", c.R.Class)
+		}
+	}
+}
+
 func runC35(c *Ctx) {
+	if c.Run%6 == 5 {
+		runC35Legacy(c)
+		return
+	}
 	ch := c.Ch
 	ver := []uint16{tls.VersionTLS12, tls.VersionTLS13}[ch.Pick(2, "ver")]
 	explicitKeys := ch.Bool(60, "explicit-keys")
@@ -119,9 +193,49 @@ func runC35(c *Ctx) {
 	var tickets []sealed
 	keyHist := []int{0} // explicit keys currently installed, front first
 	keys := [][32]byte{k0, k1, k2}
+	// clones taken along the way keep the key set they were cloned with, whatever happens to the
+	// original afterwards
+	type cloneRec struct {
+		cfg  *tls.Config
+		keys []int
+		at   int
+	}
+	var clones []cloneRec
+	checkClones := func() {
+		for ci, cl := range clones {
+			for ti, t := range tickets {
+				if t.key < 0 {
+					continue
+				}
+				d, _ := cl.cfg.DecryptTicket(t.ticket, cs0)
+				has := false
+				for _, k := range cl.keys {
+					if k == t.key {
+						has = true
+					}
+				}
+				if has && d == nil {
+					fail("clone-lost-its-keys", "clone %d (taken after op %d with keys %v) no longer opens ticket %d sealed under key %d; the original now has %v", ci, cl.at, cl.keys, ti, t.key, keyHist)
+				} else if has {
+					if db, _ := d.Bytes(); !bytes.Equal(db, t.state) {
+						fail("ticket-opens-to-different-state", "clone %d ticket %d", ci, ti)
+					}
+				}
+				if !has && d != nil {
+					fail("clone-accepts-key-it-never-had", "clone %d (keys %v) opens ticket %d sealed under key %d", ci, cl.keys, ti, t.key)
+				}
+			}
+		}
+	}
 	nops := ch.Range(3, 10, "nops")
 	for i := 0; i < nops && c.R.Violation == nil; i++ {
-		switch op := ch.Pick(7, "op"); op {
+		switch op := ch.Pick(8, "op"); op {
+		case 7: // clone the Config as it is now
+			if !explicitKeys {
+				continue
+			}
+			clones = append(clones, cloneRec{scfg.Clone(), append([]int(nil), keyHist...), len(ops)})
+			ops = append(ops, fmt.Sprintf("clone(keys=%v)", keyHist))
 		case 0, 1: // seal + round trip
 			s := variant()
 			if s == nil {
@@ -243,7 +357,11 @@ func runC35(c *Ctx) {
 				c.R.NonTrivial = true
 			}
 			ops = append(ops, "reopen-all")
+			checkClones()
 		}
+	}
+	if c.R.Violation == nil {
+		checkClones()
 	}
 	// independently sealed ticket must be accepted by DecryptTicket (same key derivation both ways)
 	if explicitKeys && c.R.Violation == nil {
